@@ -445,6 +445,16 @@ func transfer(input OmegaInput) (output OmegaOutput) {
 			}
 		}
 
+		// the gas limit l is charged on top of the base cost: if it cannot be paid the call is
+		// out of gas and must not have debited the balance or queued the transfer
+		if uint64(*input.VM.Gas) < l {
+			*input.VM.Gas = 0
+			return OmegaOutput{
+				ExitReason: ExitOOG,
+				Addition:   input.Addition,
+			}
+		}
+
 		t := types.DeferredTransfer{
 			SenderID:   serviceID,
 			ReceiverID: types.ServiceID(d),
